@@ -160,11 +160,25 @@ Buck4Cases ==
       rho \in {<<3, 10>>, <<1363, 10000>>} \cup (IF Deep THEN {<<1, 2>>} ELSE {}),
       c \in {R(0), R(32), R(134), R(-5)} \cup (IF Deep THEN {<<7, 2>>} ELSE {}), kn \in Buck4Knots}
 
+\* Tang-Toennies: V = Eh * [ A exp(-b R) - sum_{n=3..5} f_2n(b R) C_2n / R^2n ],  f_2n(x) = 1 - exp(-x) * P_2n(x),
+\* P_2n(x) = sum_{k=0..2n} x^k / k!  (R in Bohr = r / 0.5292, Eh = 27.211 eV: the constants of the form's own documentation).
+\* With A = 0 and a single coefficient C_2n = c the form satisfies the POLYNOMIAL identity
+\*        (1 + V R^2n / (Eh c)) * exp(x) = P_2n(x),      x = b R,
+\* whose right-hand side is an exact rational at rational x; together with the A term alone (a scaled exponential) and the
+\* linearity of V in (A, C_6, C_8, C_10) this pins the form at every separation, also where 1 - exp(-x) P(x) cancels.
+RECURSIVE Factorial(_)
+Factorial(k) == IF k = 0 THEN 1 ELSE k * Factorial(k - 1)
+TTPoly(n) == [k \in 1..(2 * n + 1) |-> <<1, Factorial(k - 1)>>]          \* coefficient of x^(k-1)
+TTCases == {[form |-> "tang_toennies", n |-> n, b |-> b, R |-> rr, x |-> RMul(b, rr), poly |-> TTPoly(n)] :
+               n \in 3..5, b \in {R(1), <<3, 2>>, R(2), <<1, 2>>},
+               rr \in {<<1, 4>>, <<2, 5>>, <<1, 2>>, <<9, 10>>, R(1), <<3, 2>>, R(2), R(3), R(5)}}
+
 Emit == IF "EMIT" \in DOMAIN IOEnv /\ IOEnv.EMIT = "1"
         THEN /\ ndJsonSerialize(IOEnv.VERIF_OUT \o "/exact.ndjson", SetToSeq(ExactCases \cup ExponentialCases \cup ExponentialAtZero))
              /\ ndJsonSerialize(IOEnv.VERIF_OUT \o "/special.ndjson", SetToSeq(SpecialCases \cup RouteCases))
              /\ ndJsonSerialize(IOEnv.VERIF_OUT \o "/sig.ndjson", <<[n \in Names |-> Sig[n]]>>)
              /\ ndJsonSerialize(IOEnv.VERIF_OUT \o "/buck4.ndjson", SetToSeq(Buck4Cases))
+             /\ ndJsonSerialize(IOEnv.VERIF_OUT \o "/tt.ndjson", SetToSeq(TTCases))
              /\ ndJsonSerialize(IOEnv.VERIF_OUT \o "/factoryonly.ndjson", SetToSeq(FactoryOnly))
         ELSE TRUE
 ASSUME Emit
